@@ -13,25 +13,32 @@ structure Std where
   /-- `v.sort_unstable()` -/
   sortUnstable : List Int → List Int
 
-/-- the `for item in input` loop; `buf` is the vector `top_k`, `th` the threshold -/
-def loop (S : Std) (k : Nat) : List Int → List Int → Option Int → List Int
+/-- `usize::MAX` -/
+def usizeMax : Nat := 2 ^ 64 - 1
+
+/-- `k.saturating_mul(2)` on 64-bit usize -/
+def limitOf (k : Nat) : Nat := if 2 * k > usizeMax then usizeMax else 2 * k
+
+/-- the `for item in input` loop; `buf` is the vector `top_k`, `th` the threshold, `limit` the
+    buffer length at which the selection runs -/
+def loop (S : Std) (k limit : Nat) : List Int → List Int → Option Int → List Int
   | [], buf, _ => buf
   | x :: xs, buf, th =>
     let skip := match th with
       | some t => decide (x ≥ t)
       | none => false
-    if skip then loop S k xs buf th
+    if skip then loop S k limit xs buf th
     else
       let buf' := buf ++ [x]
-      if buf'.length = 2 * k then
+      if buf'.length = limit then
         let b := S.selectNth buf' (k - 1)
         -- `median` is the element at position k-1 after the selection
-        loop S k xs (b.take k) b[k - 1]?
-      else loop S k xs buf' th
+        loop S k limit xs (b.take k) b[k - 1]?
+      else loop S k limit xs buf' th
 
-/-- `top_k(input, k)` -/
+/-- `top_k(input, k)`; the reserved capacity `limit.min(size_hint)` has no observable effect -/
 def topK (S : Std) (xs : List Int) (k : Nat) : List Int :=
   if k = 0 then []
-  else (S.sortUnstable (loop S k xs [] none)).take k
+  else (S.sortUnstable (loop S k (limitOf k) xs [] none)).take k
 
 end Tbx.TopK
